@@ -362,8 +362,8 @@ def collect_forms(repo):
     res = []
     for f in forms:
         names = [f["name"]]
-        if f["name"] == "b.<cond>":
-            names = ["b"]
+        if f["name"] in ("b.<cond>", "bc.<cond>"):
+            names = [f["name"].split(".")[0]]
         try:
             mask, value, fields = parse_template(f["opcodeString"], f["fields"])
         except TranslateError:
@@ -387,7 +387,7 @@ def collect_forms(repo):
         for n in names:
             res.append({"name": n, "mask": mask, "value": value, "fields": fields, "ops": specs, "free": free, "opsrc": srcs,
                         "t": f.get("t", ""), "ta": f.get("ta", ""), "tb": f.get("tb", ""), "tatb": f.get("tatb", ""),
-                        "cond": f["name"] == "b.<cond>", "key": [f.get("_orig_name", f["name"]), f.get("_orig_ops", [o["data"] for o in f["ops"]]), f.get("_orig_op", f["opcodeString"])],
+                        "cond": f["name"] in ("b.<cond>", "bc.<cond>"), "key": [f.get("_orig_name", f["name"]), f.get("_orig_ops", [o["data"] for o in f["ops"]]), f.get("_orig_op", f["opcodeString"])],
                         "src": "%s %s" % (f["name"], ", ".join(o["data"] for o in f["ops"]))})
     return res, applied
 
@@ -458,7 +458,9 @@ def source_features(repo):
             "srcIndexTailChecksWIndex": int("RegType::kGp32" in tail and "B(13)" in tail),
             "srcMatchWideNarrow": int("match_wide_narrow" in src),
             # fixes/C02-16.patch: movi/mvni with 64-bit elements look at the second immediate (the original reads operand 0 as an immediate)
-            "srcMoviChecksShiftOperand": int("o2.is_imm() && (o2.as<Imm>().value() != 0" in src)}
+            "srcMoviChecksShiftOperand": int("o2.is_imm() && (o2.as<Imm>().value() != 0" in src),
+            # fixes/C02-17.patch: a condition code is also allowed with BC.<cond> (the original gate only lets `b` through)
+            "srcBcAcceptsCond": int("inst_id != Inst::kIdB && inst_id != Inst::kIdBc" in src)}
 
 
 def render_tables(insts, rows, consts, encids):
